@@ -82,6 +82,35 @@ struct Tagged {
     weight: Option<i64>,
 }
 
+// custom value types (derive DbValue + DbTypeMarker + DbSerialize: stored as the bytes of their binary serialization) as
+// a field, inside a vector (stored as the serialization of a vector of byte values; empty vector = empty bytes) and optional
+#[derive(Default, Debug, Clone, PartialEq, DbTypeMarker, DbValue, DbSerialize)]
+enum Status { Active, #[default] Inactive }
+#[derive(Clone, PartialEq, Debug, DbValue, DbTypeMarker, DbSerialize)]
+struct Attr { name: String, value: String }
+#[derive(DbType, Clone, Debug, PartialEq)]
+struct Labeled {
+    db_id: Option<DbId>,
+    status: Status,
+    attr: Attr,
+    attrs: Vec<Attr>,
+    extra: Option<Attr>,
+}
+fn framed(s: &str) -> Vec<u8> { let mut b = (s.len() as u64).to_le_bytes().to_vec(); b.extend_from_slice(s.as_bytes()); b }
+fn attr_bytes(a: &Attr) -> Vec<u8> { let mut b = framed(&a.name); b.extend(framed(&a.value)); b }
+fn expected_labeled(v: &Labeled) -> Vec<DbKeyValue> {
+    let mut out = vec![kv("status", vec![if v.status == Status::Active { 0u8 } else { 1u8 }]), kv("attr", attr_bytes(&v.attr))];
+    let items: Vec<DbValue> = v.attrs.iter().map(|a| DbValue::Bytes(attr_bytes(a))).collect();
+    out.push(kv("attrs", if items.is_empty() { Vec::<u8>::new() } else { AgdbSerialize::serialize(&items) }));
+    if let Some(e) = &v.extra { out.push(kv("extra", attr_bytes(e))); }
+    out
+}
+fn gen_attr(rng: &mut Rng) -> Attr { Attr { name: word(rng), value: word(rng) } }
+fn gen_labeled(rng: &mut Rng) -> Labeled {
+    Labeled { db_id: None, status: if rng.chance(1, 2) { Status::Active } else { Status::Inactive }, attr: gen_attr(rng),
+              attrs: (0..rng.below(4)).map(|_| gen_attr(rng)).collect(), extra: if rng.chance(1, 2) { Some(gen_attr(rng)) } else { None } }
+}
+
 fn kv<K: Into<DbValue>, V: Into<DbValue>>(k: K, v: V) -> DbKeyValue {
     DbKeyValue { key: k.into(), value: v.into() }
 }
@@ -150,7 +179,7 @@ fn insert_event(ids: &[QueryId], values: &[Vec<DbKeyValue>], r: &Result<QueryRes
 }
 
 #[derive(Clone)]
-enum Stored { A(Account), P(Profile), N(Note), D(Device), F(Prefs), L(Plain), T(Tagged) }
+enum Stored { A(Account), P(Profile), N(Note), D(Device), F(Prefs), L(Plain), T(Tagged), B(Labeled) }
 
 /// typed read-back through both typed selects: `elements::<T>()` (Vec<T>) and `element::<T>()` (T)
 macro_rules! typed_read {
@@ -188,7 +217,13 @@ pub fn run(args: &Args) {
             let x = rng.below(10);
             if x < 5 || stored.is_empty() {
                 // insert a new element (one, or two at once through elements())
-                match rng.below(9) {
+                match rng.below(11) {
+                    9 | 10 => {
+                        let v = gen_labeled(&mut rng);
+                        let r = with_db_mut(&mut db, |d| d.exec_mut(QueryBuilder::insert().element(&v).query()));
+                        trace.emit(insert_event(&[QueryId::Id(DbId(0))], &[expected_labeled(&v)], &r));
+                        if let Ok(r) = &r { let id = r.elements[0].id.0; stored.push((id, Stored::B(Labeled { db_id: Some(DbId(id)), ..v }))); }
+                    }
                     7 | 8 => {
                         let v = gen_tagged(&mut rng);
                         let r = with_db_mut(&mut db, |d| d.exec_mut(QueryBuilder::insert().element(&v).query()));
@@ -298,6 +333,13 @@ pub fn run(args: &Args) {
                         trace.emit(insert_event(&[QueryId::Id(DbId(id))], &[expected_tagged(&v)], &r));
                         if r.is_ok() { stored[i].1 = Stored::T(v); }
                     }
+                    Stored::B(o) => {
+                        let mut v = Labeled { db_id: Some(DbId(id)), ..gen_labeled(&mut rng) };
+                        if o.extra.is_none() { v.extra = None; } else if v.extra.is_none() { v.extra = Some(gen_attr(&mut rng)); }
+                        let r = with_db_mut(&mut db, |d| d.exec_mut(QueryBuilder::insert().element(&v).query()));
+                        trace.emit(insert_event(&[QueryId::Id(DbId(id))], &[expected_labeled(&v)], &r));
+                        if r.is_ok() { stored[i].1 = Stored::B(v); }
+                    }
                     Stored::F(_) => continue,
                     Stored::N(_) => continue, // no id field: cannot be addressed through the type
                 }
@@ -314,8 +356,9 @@ pub fn run(args: &Args) {
                     Stored::F(f) => typed_read!(Prefs, &db, id, f),
                     Stored::L(l) => typed_read!(Plain, &db, id, l),
                     Stored::T(t) => typed_read!(Tagged, &db, id, t),
+                    Stored::B(b) => typed_read!(Labeled, &db, id, b),
                 };
-                trace.emit(json!({"ev": "TypedRead", "id": id, "ok": ok, "eq": eq, "type": match v { Stored::A(_) => "Account", Stored::P(_) => "Profile", Stored::N(_) => "Note", Stored::D(_) => "Device", Stored::F(_) => "Prefs", Stored::L(_) => "Plain", Stored::T(_) => "Tagged" }}));
+                trace.emit(json!({"ev": "TypedRead", "id": id, "ok": ok, "eq": eq, "type": match v { Stored::A(_) => "Account", Stored::P(_) => "Profile", Stored::N(_) => "Note", Stored::D(_) => "Device", Stored::F(_) => "Prefs", Stored::L(_) => "Plain", Stored::T(_) => "Tagged", Stored::B(_) => "Labeled" }}));
                 n_read += 1;
                 continue;
             }
